@@ -470,3 +470,71 @@ func RunStandalone(kind, script string, timeoutMS int) string {
 	}
 	return res
 }
+
+// fallbackKinds lists the solvers tried (as fresh processes on the standalone script) when the
+// live solver answers unknown for an obligation or a model request.
+func fallbackKinds(kind string) []string {
+	switch kind {
+	case "z3":
+		return []string{"z3-new", "cvc5"}
+	case "z3-new":
+		return []string{"cvc5", "z3"}
+	}
+	return []string{"z3-new", "z3"}
+}
+
+// FallbackCheck re-decides the current path plus extra with the other solvers.
+func (s *Solver) FallbackCheck(extra string) string {
+	script := s.Script(extra)
+	for _, k := range fallbackKinds(s.Kind) {
+		t0 := time.Now()
+		r := RunStandalone(k, script, s.TimeMS)
+		s.Stats.Seconds += time.Since(t0).Seconds()
+		if r == "sat" || r == "unsat" {
+			return r
+		}
+	}
+	return "unknown"
+}
+
+// FallbackModel asks the other solvers for a model of the current path plus extra.
+func (s *Solver) FallbackModel(extra string, names []string) (string, map[string]string) {
+	if len(names) == 0 {
+		return s.FallbackCheck(extra), map[string]string{}
+	}
+	script := "(set-option :produce-models true)\n" + strings.TrimSuffix(s.Script(extra), "(check-sat)\n") + "(check-sat)\n(get-value (" + strings.Join(names, " ") + "))\n"
+	for _, k := range fallbackKinds(s.Kind) {
+		argv := solverArgv(k, s.TimeMS)
+		var args []string
+		for _, a := range argv[1:] {
+			if a != "-in" && a != "--incremental" {
+				args = append(args, a)
+			}
+		}
+		if k != "cvc5" {
+			args = append(args, "-in")
+		}
+		cmd := exec.Command(argv[0], args...)
+		cmd.Stdin = strings.NewReader(script)
+		t0 := time.Now()
+		out, _ := cmd.CombinedOutput()
+		s.Stats.Seconds += time.Since(t0).Seconds()
+		text := string(out)
+		if strings.Contains(text, "(error") {
+			continue
+		}
+		lines := strings.SplitN(strings.TrimSpace(text), "\n", 2)
+		if len(lines) == 0 {
+			continue
+		}
+		switch strings.TrimSpace(lines[0]) {
+		case "unsat":
+			return "unsat", nil
+		case "sat":
+			if len(lines) > 1 {
+				return "sat", parseGetValue(strings.Join(strings.Fields(lines[1]), " "))
+			}
+		}
+	}
+	return "unknown", nil
+}
